@@ -27,7 +27,7 @@ var R = hx.NewRecorder("C06", "cases = (server mode gm|auto|tls, client kind gm|
 	"non-trivial = handshake completed with data moved each way, or a forbidden combination that reached the peer's first flight; distinct by hash of the case description")
 
 func TestMain(m *testing.M) {
-	R.Require("interop_suite:c030", "interop_suite:9d", "interop_suite:c02f", "interop_suite:c014", "interop_suite:cca8", "interop_suite:2f", "ref_peer", "readbuf<record", "mode:gm", "mode:auto", "mode:tls", "suite:e013", "suite:e053", "tls10", "tls11", "tls12", "auth:0", "auth:1", "auth:2", "auth:3", "auth:4",
+	R.Require("reconnect", "reconnect_resumed", "interop_suite:c030", "interop_suite:9d", "interop_suite:c02f", "interop_suite:c014", "interop_suite:cca8", "interop_suite:2f", "ref_peer", "readbuf<record", "mode:gm", "mode:auto", "mode:tls", "suite:e013", "suite:e053", "tls10", "tls11", "tls12", "auth:0", "auth:1", "auth:2", "auth:3", "auth:4",
 		"clientcert:untrusted", "clientcert:callback_untrusted", "certsource:callbacks", "stdlib_client", "stdlib_server", "passive_decoder", "payload>16KiB", "fragment==1", "must_fail", "must_succeed")
 	hx.Main(m, R)
 }
@@ -884,6 +884,7 @@ func TestC06_Handshakes(t *testing.T) {
 			cl = append(cl, "tls12")
 		}
 		// independent decoding of the GMSSL wire image
+		var masterFirst []byte
 		if c.ClientKind == "gm" {
 			encD := p.SrvEnc.SM2D
 			if c.SrvCert == "untrusted" {
@@ -905,6 +906,44 @@ func TestC06_Handshakes(t *testing.T) {
 				t.Fatalf("wire suite %x vs reported %x", d.Suite, cs.CipherSuite)
 			}
 			cl = append(cl, "passive_decoder")
+			masterFirst = d.Master
+		}
+		// "session tickets on": the same two configurations connect again (the client cache may now offer a ticket);
+		// whether or not the server resumes, the second connection must agree on the same parameters and carry data
+		if c.Tickets && gen.Uniform(t, "reconnect", 2) == 0 {
+			r2 := tlsx.Run(ccfg, scfg, tlsx.Script{ClientSend: ssend, ServerSend: csend})
+			if r2.Client.Panic != nil || r2.Server.Panic != nil {
+				t.Fatalf("endpoint panicked on the second connection of the same configurations\n%s\n%s", r2.Describe(), desc)
+			}
+			if r2.Client.HSErr != nil || r2.Server.HSErr != nil {
+				t.Fatalf("the second connection between the same configurations (tickets on) FAILED\n%s\n%s", r2.Describe(), desc)
+			}
+			c2, s2 := r2.Client.State, r2.Server.State
+			if c2.Version != cs.Version || c2.CipherSuite != cs.CipherSuite || s2.CipherSuite != cs.CipherSuite || c2.DidResume != s2.DidResume {
+				t.Fatalf("second connection disagrees: %x/%x resumed %v/%v, first was %x/%x\n%s", c2.Version, c2.CipherSuite, c2.DidResume, s2.DidResume, cs.Version, cs.CipherSuite, desc)
+			}
+			if !bytes.Equal(r2.Server.Received, ssend) || !bytes.Equal(r2.Client.Received, csend) {
+				t.Fatalf("data not delivered intact on the second connection (resumed=%v)\n%s", c2.DidResume, desc)
+			}
+			if c.ClientKind == "gm" && masterFirst != nil {
+				var known []byte
+				if c2.DidResume {
+					known = masterFirst
+				}
+				encD := p.SrvEnc.SM2D
+				if c.SrvCert == "untrusted" {
+					encD = p.SrvEncBad.SM2D
+				} else if c.SrvCert == "enc_expired" {
+					encD = p.SrvEncExpired.SM2D
+				}
+				if _, err := rgmssl.Decode(r2.Log, encD, known); err != nil {
+					t.Fatalf("the independent decoder rejects the second connection (resumed=%v): %v\n%s", c2.DidResume, err, desc)
+				}
+			}
+			cl = append(cl, "reconnect")
+			if c2.DidResume {
+				cl = append(cl, "reconnect_resumed")
+			}
 		}
 		R.Case(len(csend) > 0 && len(ssend) > 0, hx.HashKey(c.String()), cl...)
 		R.Sample("session", map[string]interface{}{"mode": c.ServerMode, "client": c.ClientKind, "suite": fmt.Sprintf("%x", cs.CipherSuite), "version": fmt.Sprintf("%x", cs.Version), "auth": int(c.ClientAuth), "clientcert": c.ClientCert, "c2s": c.CSend, "s2c": c.SSend})
